@@ -147,7 +147,9 @@ def certainly_undecodable(it, body):
     return it['kind'] in ('short', 'unknown') or len(body) < 6
 
 
-async def via_transport(loop, var, chunks, rbuf, cap):
+async def via_transport(loop, var, chunks, rbuf, cap, eof='after'):
+    """eof: 'after' - EOF arrives once everything was read; 'with_last' - the peer's FIN is already there when the last
+    chunk is read; 'all_first' - everything, EOF included, arrived before the receiver started reading."""
     T = var.mod('rsocket.transports.tcp')
     reader = asyncio.StreamReader(limit=2 ** 26)
 
@@ -157,9 +159,18 @@ async def via_transport(loop, var, chunks, rbuf, cap):
 
     tr = T.TransportTCP(reader, W(), read_buffer_size=rbuf)
     out = []
-    for ch in chunks:
+    total = sum(len(ch) for ch in chunks)
+    if eof == 'all_first':
+        for ch in chunks:
+            if ch:
+                reader.feed_data(ch)
+        reader.feed_eof()
+        chunks = []
+    for i, ch in enumerate(chunks):
         if ch:
             reader.feed_data(ch)
+        if eof == 'with_last' and i == len(chunks) - 1:
+            reader.feed_eof()
         # read everything that is buffered now
         while len(reader._buffer):
             gen = await tr.next_frame_generator()
@@ -169,11 +180,16 @@ async def via_transport(loop, var, chunks, rbuf, cap):
                 out.append(view(fr))
                 if len(out) > cap:
                     raise Endless()
-    reader.feed_eof()
-    gen = await tr.next_frame_generator()
-    if gen is not None:
+    if not reader.at_eof() or eof == 'after':
+        reader.feed_eof()
+    for _ in range(cap + total + 4):
+        gen = await tr.next_frame_generator()
+        if gen is None:
+            break
         async for fr in gen:
             out.append(view(fr))
+            if len(out) > cap:
+                raise Endless()
     return out
 
 
@@ -252,10 +268,12 @@ def prop(case):
             pts = [0] + list(case['cuts']) + [len(stream)]
             chunks = [stream[a:b] for a, b in zip(pts, pts[1:])]
             try:
-                got = vloop.run_case(via_transport, var, chunks, case['rbuf'], cap)
-                if got != expected:
-                    out.append(viol('transport_output_differs', 'C04:transport_output_differs', backend=var.name,
-                                    rbuf=case['rbuf'], n_got=len(got), n_expected=len(expected)))
+                for eof in ('after', 'with_last', 'all_first'):
+                    got = vloop.run_case(via_transport, var, chunks, case['rbuf'], cap, eof)
+                    if got != expected:
+                        out.append(viol('transport_output_differs', 'C04:transport_output_differs:eof_' + eof, backend=var.name,
+                                        rbuf=case['rbuf'], n_got=len(got), n_expected=len(expected)))
+                        break
             except Endless:
                 out.append(viol('decoder_does_not_terminate', 'C04:endless:transport', backend=var.name))
         # message mode: one item per message
